@@ -1,6 +1,6 @@
 import vlib
 
-THEORY = ["theories/Mesh/Pure.v", "theories/Mesh/PureLemmas.v", "theories/Mesh/PureProofs.v", "theories/Mesh/Case.v", "theories/Mesh/GenWf.v"]
+THEORY = ["theories/Mesh/Pure.v", "theories/Mesh/PureLemmas.v", "theories/Mesh/PureProofs.v", "theories/Mesh/Case.v", "theories/Mesh/GenWf.v", "theories/Mesh/GenIdx.v", "theories/Mesh/GenIdxProofs.v"]
 
 CFG = {
     "id": "C02", "harness": "c02",
@@ -13,14 +13,17 @@ CFG = {
                   "well-formed meshes or a declared failure, never a crash, for every input mesh and parameter (step_wf), and "
                   "therefore every history of operations does (run_wf, induction over the history); wf implies every "
                   "accessor stays in range; the primitives' index formulas (sphere, unwelded sphere, hemisphere, cylinder, "
-                  "cube; proved in range for every admissible count under C18) give well-formed meshes (wf_generators_partial). "
+                  "cube; proved in range for every admissible count under C18) and the fan (Circle, Cone) and tube (extrude.polygon) "
+                  "index models of Mesh/GenIdx.v give well-formed meshes for every count (wf_generators_partial, "
+                  "wf_generators_fan_tube; fan/tube index lists are compared with the implementation's on every run). "
                   "The model is tied to the Go code on every run by executing the implementation on random well-formed meshes "
                   "(histories of depth <= 4) and evaluating model = implementation in Coq; the boolean well-formedness test wfb "
                   "(proved equivalent to wf) is applied directly to every mesh the implementation returns, including the output "
                   "of every geometry generator (primitives, extrusions, repeat, marching cubes, triangulation) over fixed "
                   "corner counts, a window of the exhaustive small counts and sampled larger parameterisations",
-    "level_note": "Generators other than the five primitives families (cone, circle, quad, extrude.*, repeat.* transforms, "
-                  "marching, Bowyer-Watson) are not modelled: their outputs are judged by the certified oracle wfb only. "
+    "level_note": "Generators other than the five primitives families of C18 and the fan/tube models (quad, extrude.Line/Shape, "
+                  "repeat.* transforms, marching, Bowyer-Watson) are not modelled: their outputs are judged by the certified "
+                  "oracle wfb only. "
                   "Trusted: Coq kernel + vm_compute; hand-written model tied by differential correspondence only",
     "technique": "Coq proof (per-operation closure lemmas, induction over histories) + vm_compute correspondence check + "
                  "certified boolean oracle on every implementation output",
